@@ -555,6 +555,11 @@ class OpenLayouts(Suite):
         for _ in range(n):
             out.append({"fmt": "vhdx", "has_parent": rng.chance(0.8), "loc_ok": rng.chance(0.85),
                         "rel_exists": rng.chance(0.5), "abs_exists": rng.chance(0.5), "salt": rng.randrange(1 << 20)})
+        # the child handed over as a nameless stream (io.BytesIO): there is no directory to resolve the parent in, so a
+        # differencing image cannot be opened that way, whatever lies on disk
+        for k in range(4):
+            out.append({"fmt": "vhdx", "has_parent": k != 3, "loc_ok": k != 2, "rel_exists": True, "abs_exists": k % 2 == 0,
+                        "salt": rng.randrange(1 << 20), "nameless": True})
         return out
 
     def impl(self, case):
@@ -598,7 +603,11 @@ class OpenLayouts(Suite):
             if case["abs_exists"]:
                 abs_sf = write(os.path.join(absdir, "parent_abs.vhdx"), dict(base, salt=case["salt"] + 2))
             try:
-                v = VHDX(Path(tmp) / "vm" / "child.vhdx")
+                if case.get("nameless"):
+                    import io
+                    v = VHDX(io.BytesIO((Path(tmp) / "vm" / "child.vhdx").read_bytes()))
+                else:
+                    v = VHDX(Path(tmp) / "vm" / "child.vhdx")
             except Exception as e:  # noqa: BLE001
                 return {"result": "err", "exc": type(e).__name__}
             data = v.read(4096)
@@ -616,6 +625,8 @@ class OpenLayouts(Suite):
             shutil.rmtree(tmp, ignore_errors=True)
 
     def coq_term(self, case):
+        if case.get("nameless"):
+            case = dict(case, rel_exists=False, abs_exists=False)       # nothing can be looked up without a path
         fs = f"(fun p : Z => if p =? 1 then {core.cbool(case['rel_exists'])} else {core.cbool(case['abs_exists'])})"
         return f"vhdx_open_parent {fs} {core.cbool(case['has_parent'])} {core.cbool(case['loc_ok'])} 1 2"
 
@@ -624,6 +635,8 @@ class OpenLayouts(Suite):
             return [Finding("impl_fault", f"implementation {impl_res}", "vhdx:open:" + impl_res["outcome"])]
         m = core.res_of(coq_val)
         fs = []
+        if case.get("nameless"):
+            case = dict(case, rel_exists=False, abs_exists=False)
         # specification: a differencing disk needs its parent
         need = case["has_parent"]
         resolvable = case["loc_ok"] and (case["rel_exists"] or case["abs_exists"])
